@@ -44,7 +44,7 @@ def _make(ctx, n, shape, strand):
     for fi, nparts in enumerate(shape):
         parts = mk_parts(ctx, "f%d" % fi, nparts, n, strand=strand)
         feats.append(build_feature(st, parts, FTYPES[fi % len(FTYPES)] if ctx.P.get("source") else "CDS",
-                                   {"label": ["f%d" % fi]}, fid="id%d" % fi))
+                                   {"label": ["f%d" % fi], "plain": "text", "n": 1}, fid="id%d" % fi))
         specs.append(parts)
     rec = st.record.CircularRecord(st.Seq(r), id="rid", name="rn", description="rd", features=feats,
                                    annotations={"topology": "circular"})
@@ -92,7 +92,7 @@ def ob_rc(ctx):
     for fi, parts in enumerate(specs):
         g = fo.get("id%d" % fi)
         want_type = FTYPES[fi % len(FTYPES)] if P.get("source") else "CDS"
-        ctx.require(g is not None and g.type == want_type and dict(g.qualifiers) == {"label": ["f%d" % fi]}, "feature-identity")
+        ctx.require(g is not None and g.type == want_type and dict(g.qualifiers) == {"label": ["f%d" % fi], "plain": "text", "n": 1}, "feature-identity")
         _mirrored(ctx, parts, parts_of(g), n, "flip-f%d" % fi, all_none)
     back = out.reverse_complement()
     ctx.require(isinstance(back, st.record.CircularRecord), "type-twice")
